@@ -1,18 +1,21 @@
 (* GridfsProofs.v — proofs about the GridFS model (Model/Gridfs.v) for C18.
 
-   For ALL contents, all chunk sizes 0 < cs <= B (B = upload buffer size), all
-   write partitions, all suspend/resume points and all download scripts:
-   - upload_concat_partial / upload_canonical: a completed upload stores the
-     canonical chunking of the concatenated writes (numbers 0..n-1, all but the
-     last chunk full, last non-empty) and a file record with the exact length;
-   - suspend_resume_partial: suspending and resuming at any points ends in the
-     same stored state as the uninterrupted upload;
-   - download_equiv_partial: any Read/Seek/Skip script on the download stream
-     of a well-formed file behaves like the in-memory reader `bytes_reader`;
+   For ALL contents, all write partitions, all suspend/resume points, all
+   download scripts, and every chunk size with which an upload stream can be
+   opened (open_upload succeeds exactly for 0 < cs <= B, B = upload buffer):
+   - open_ok / open_rejects_bad_chunk_size / upload_total;
+   - upload_concat / upload_canonical: a completed upload stores the canonical
+     chunking of the concatenated writes (numbers 0..n-1, all but the last
+     chunk full, last non-empty) and a file record with the exact length;
+   - suspend_resume: suspending and resuming at any points ends in the same
+     stored state as the uninterrupted upload;
+   - download_equiv: any Read/Seek/Skip script (any whence, any count) on the
+     download stream of a well-formed file behaves like `bytes_reader`;
+     seek_rejects_unknown_whence;
    - abort_leaves_nothing, delete_leaves_nothing, delete_cleanup_leaves_nothing.
-   The unrestricted statements are false of the faithful model: see the
-   `_refuted` theorems at the end (chunk size 0: panic; chunk size > buffer:
-   Write never returns; unknown whence: position 0 instead of an error). *)
+   The `unguarded_*` theorems at the end record what the validation in
+   open_upload (lungo fix ae31d98) protects from: chunk size <= 0 panics in
+   upload, chunk size > buffer makes Write spin forever. *)
 From Coq Require Import List ZArith Lia ZifyBool ZifyNat Bool.
 From Lungo.Model Require Import Gridfs.
 Import ListNotations.
@@ -921,11 +924,34 @@ Fixpoint writes (c : cfg) (st : store) (u : ustream) (parts : list (list Z)) : o
       end
   end.
 
+(* opening a stream succeeds exactly for 0 < cs <= B *)
+Lemma open_ok c f cs u : open_upload c f cs = Some u -> 0 < cs <= cfg_B c /\ u = new_upload f cs.
+Proof.
+  unfold open_upload. destruct ((cs <=? 0) || (cs >? cfg_B c)) eqn:E; [discriminate|].
+  intro H. inversion H. split; [lia | reflexivity].
+Qed.
+
+Lemma open_upload_ok c f cs : 0 < cs <= cfg_B c -> open_upload c f cs = Some (new_upload f cs).
+Proof.
+  intro H. unfold open_upload. assert (E : ((cs <=? 0) || (cs >? cfg_B c)) = false) by lia.
+  rewrite E. reflexivity.
+Qed.
+
+Theorem open_rejects_bad_chunk_size c f cs : cs <= 0 \/ cs > cfg_B c -> open_upload c f cs = None.
+Proof.
+  intro H. unfold open_upload. assert (E : ((cs <=? 0) || (cs >? cfg_B c)) = true) by lia.
+  rewrite E. reflexivity.
+Qed.
+
 (* OpenUploadStreamWithID; Write...; Close (; ClaimUpload in a tracked bucket) *)
 Definition upload_run (c : cfg) (st0 : store) (f cs : Z) (parts : list (list Z)) : option store :=
-  match writes c st0 (new_upload f cs) parts with
-  | Some (st, u) => finish c st u
+  match open_upload c f cs with
   | None => None
+  | Some u =>
+      match writes c st0 u parts with
+      | Some (st, u') => finish c st u'
+      | None => None
+      end
   end.
 
 Lemma writes_inv c f cs :
@@ -942,16 +968,16 @@ Proof.
     split; [|eapply Frame_trans; eauto]. cbn [concat]. rewrite app_assoc. exact Hinv'.
 Qed.
 
-Theorem upload_canonical c f cs parts st0 :
-  0 < cs <= cfg_B c -> fresh st0 f -> ids_fresh st0 ->
+Theorem upload_canonical c f cs parts st0 u0 :
+  open_upload c f cs = Some u0 -> fresh st0 f -> ids_fresh st0 ->
   exists st, upload_run c st0 f cs parts = Some st /\
              Stored c f cs (concat parts) st /\ OtherSame f st0 st.
 Proof.
-  intros Hcs Hfresh Hids.
+  intros Hopen Hfresh Hids. destruct (open_ok _ _ _ _ Hopen) as [Hcs _].
   destruct (writes_inv c f cs Hcs parts [] st0 (new_upload f cs) (init_inv c f cs st0 ltac:(lia) Hfresh Hids))
     as [st [u [Hw [Hinv Hfr]]]].
   destruct (finish_inv c f cs _ st u ltac:(lia) Hinv) as [st' [Hfin [Hstored Hos]]].
-  exists st'. unfold upload_run. rewrite Hw. split; [exact Hfin|]. split; [exact Hstored|].
+  exists st'. unfold upload_run. rewrite (open_upload_ok c f cs Hcs), Hw. split; [exact Hfin|]. split; [exact Hstored|].
   eapply OtherSame_trans; [apply Frame_OtherSame; exact Hfr | exact Hos].
 Qed.
 
@@ -973,25 +999,33 @@ Fixpoint client (c : cfg) (content : list Z) (script : list cop) (st : store) (u
   | CSuspendResume :: t =>
       match suspend c st u with
       | (st1, _, NOk off) =>
-          match resume c st1 (new_upload (u_file u) (u_cs u)) with
-          | (u3, NOk off') => if off' =? off then client c content t st1 u3 (Z.to_nat off) else None
-          | (u3, NErr ENoDoc) =>
-              (* nothing had been stored, so no marker exists: the stream is still pristine *)
-              if off =? 0 then client c content t st1 u3 0 else None
-          | _ => None
+          match open_upload c (u_file u) (u_cs u) with
+          | None => None
+          | Some u2 =>
+              match resume c st1 u2 with
+              | (u3, NOk off') => if off' =? off then client c content t st1 u3 (Z.to_nat off) else None
+              | (u3, NErr ENoDoc) =>
+                  (* nothing had been stored, so no marker exists: the stream is still pristine *)
+                  if off =? 0 then client c content t st1 u3 0 else None
+              | _ => None
+              end
           end
       | _ => None
       end
   end.
 
 Definition client_upload (c : cfg) (st0 : store) (f cs : Z) (content : list Z) (script : list cop) : option store :=
-  match client c content script st0 (new_upload f cs) 0 with
-  | Some (st, u, sent) =>
-      match write c st u (skipn sent content) with
-      | (st1, u1, NOk _) => finish c st1 u1
-      | _ => None
-      end
+  match open_upload c f cs with
   | None => None
+  | Some u0 =>
+      match client c content script st0 u0 0 with
+      | Some (st, u, sent) =>
+          match write c st u (skipn sent content) with
+          | (st1, u1, NOk _) => finish c st1 u1
+          | _ => None
+          end
+      | None => None
+      end
   end.
 
 Definition is_cwrite (o : cop) : Prop := match o with CWrite _ => True | CSuspendResume => False end.
@@ -1044,7 +1078,7 @@ Proof.
       destruct Hfu as [Hfu Hcu].
       destruct (suspend_resume_inv c f cs _ st u Htr ltac:(lia) ltac:(lia) Hinv)
         as [st1 [uc [off [Hsus [Hfr1 [Hoff Hres]]]]]].
-      cbn [client]. rewrite Hsus, Hfu, Hcu.
+      cbn [client]. rewrite Hsus, Hfu, Hcu, (open_upload_ok c f cs Hcs).
       assert (Hoffn : (Z.to_nat off <= sent)%nat).
       { rewrite zlen_firstn in Hoff. lia. }
       destruct Hres as [[u3 [Hr Hinv3]]|[Hz [Hr Hinv3]]].
@@ -1059,45 +1093,49 @@ Proof.
         eapply Frame_trans; eauto.
 Qed.
 
-Theorem client_upload_canonical c f cs content script st0 :
-  0 < cs <= cfg_B c -> script_ok c script -> fresh st0 f -> ids_fresh st0 ->
+Theorem client_upload_canonical c f cs content script st0 u0 :
+  open_upload c f cs = Some u0 -> script_ok c script -> fresh st0 f -> ids_fresh st0 ->
   exists st, client_upload c st0 f cs content script = Some st /\
              Stored c f cs content st /\ OtherSame f st0 st.
 Proof.
-  intros Hcs Hok Hfresh Hids.
+  intros Hopen Hok Hfresh Hids. destruct (open_ok _ _ _ _ Hopen) as [Hcs _].
   destruct (client_inv c f cs content Hcs script st0 (new_upload f cs) 0%nat Hok ltac:(lia)
               (init_inv c f cs st0 ltac:(lia) Hfresh Hids))
     as [st [u [sent [Hc [Hs [Hinv Hfr]]]]]].
   destruct (write_inv c f cs _ st u (skipn sent content) Hcs Hinv) as [st1 [u1 [Hw [Hinv1 Hfr1]]]].
   rewrite firstn_skipn in Hinv1.
   destruct (finish_inv c f cs _ st1 u1 ltac:(lia) Hinv1) as [st' [Hfin [Hstored Hos]]].
-  exists st'. unfold client_upload. rewrite Hc, Hw. split; [exact Hfin|]. split; [exact Hstored|].
+  exists st'. unfold client_upload. rewrite (open_upload_ok c f cs Hcs), Hc, Hw. split; [exact Hfin|]. split; [exact Hstored|].
   eapply OtherSame_trans; [apply Frame_OtherSame; eapply Frame_trans; eauto | exact Hos].
 Qed.
 
 (* Abort at any point of any client script *)
 Definition client_abort (c : cfg) (st0 : store) (f cs : Z) (content : list Z) (script : list cop) : option store :=
-  match client c content script st0 (new_upload f cs) 0 with
-  | Some (st, u, _) =>
-      match abort st u with
-      | (st1, _, UOk) => Some st1
-      | _ => None
-      end
+  match open_upload c f cs with
   | None => None
+  | Some u0 =>
+      match client c content script st0 u0 0 with
+      | Some (st, u, _) =>
+          match abort st u with
+          | (st1, _, UOk) => Some st1
+          | _ => None
+          end
+      | None => None
+      end
   end.
 
-Theorem abort_leaves_nothing c f cs content script st0 :
-  0 < cs <= cfg_B c -> script_ok c script -> fresh st0 f -> ids_fresh st0 ->
+Theorem abort_leaves_nothing c f cs content script st0 u0 :
+  open_upload c f cs = Some u0 -> script_ok c script -> fresh st0 f -> ids_fresh st0 ->
   exists st, client_abort c st0 f cs content script = Some st /\
              no_chunks st f /\ no_file st f /\ (cfg_tracked c = true -> no_marker st f) /\
              OtherSame f st0 st.
 Proof.
-  intros Hcs Hok Hfresh Hids.
+  intros Hopen Hok Hfresh Hids. destruct (open_ok _ _ _ _ Hopen) as [Hcs _].
   destruct (client_inv c f cs content Hcs script st0 (new_upload f cs) 0%nat Hok ltac:(lia)
               (init_inv c f cs st0 ltac:(lia) Hfresh Hids))
     as [st [u [sent [Hc [Hs [Hinv Hfr]]]]]].
   destruct (abort_inv c f cs _ st u Hinv) as [st' [u' [Hab [[Hg1 Hg2] [Hnm Hfr']]]]].
-  exists st'. unfold client_abort. rewrite Hc, Hab. split; [reflexivity|].
+  exists st'. unfold client_abort. rewrite (open_upload_ok c f cs Hcs), Hc, Hab. split; [reflexivity|].
   split; [exact Hg1|]. split; [exact Hg2|]. split; [exact Hnm|].
   apply Frame_OtherSame. eapply Frame_trans; eauto.
 Qed.
@@ -1165,30 +1203,31 @@ Proof.
   pose proof (number_from_zlen f 0 (split cs content)) as H. unfold zlen in H. lia.
 Qed.
 
-(* C18, upload part: for all contents, chunk sizes 0 < cs <= B and write partitions *)
-Theorem upload_concat_partial c f cs parts st0 :
-  0 < cs <= cfg_B c -> fresh st0 f -> ids_fresh st0 ->
+(* C18, upload part: for all contents, all write partitions and every chunk
+   size with which a stream can be opened *)
+Theorem upload_concat c f cs parts st0 u0 :
+  open_upload c f cs = Some u0 -> fresh st0 f -> ids_fresh st0 ->
   exists st, upload_run c st0 f cs parts = Some st /\
              stored_as_stated st f cs (concat parts) /\ OtherSame f st0 st.
 Proof.
-  intros Hcs Hfresh Hids.
-  destruct (upload_canonical c f cs parts st0 Hcs Hfresh Hids) as [st [Hrun [Hst Hos]]].
+  intros Hopen Hfresh Hids. destruct (open_ok _ _ _ _ Hopen) as [Hcs _].
+  destruct (upload_canonical c f cs parts st0 u0 Hopen Hfresh Hids) as [st [Hrun [Hst Hos]]].
   exists st. split; [exact Hrun|]. split; [|exact Hos]. eapply stored_facts; [lia | exact Hst].
 Qed.
 
 (* C18, suspend/resume: whatever the points of suspension, the final stored
    state is that of the uninterrupted single-write upload *)
-Theorem suspend_resume_partial c f cs content script st0 :
-  0 < cs <= cfg_B c -> script_ok c script -> fresh st0 f -> ids_fresh st0 ->
+Theorem suspend_resume c f cs content script st0 u0 :
+  open_upload c f cs = Some u0 -> script_ok c script -> fresh st0 f -> ids_fresh st0 ->
   exists st st',
     client_upload c st0 f cs content script = Some st /\
     upload_run c st0 f cs [content] = Some st' /\
     find_chunks st f = find_chunks st' f /\ find_file st f = find_file st' f /\
     stored_as_stated st f cs content /\ OtherSame f st0 st.
 Proof.
-  intros Hcs Hok Hfresh Hids.
-  destruct (client_upload_canonical c f cs content script st0 Hcs Hok Hfresh Hids) as [st [Hrun [Hst Hos]]].
-  destruct (upload_canonical c f cs [content] st0 Hcs Hfresh Hids) as [st' [Hrun' [Hst' _]]].
+  intros Hopen Hok Hfresh Hids. destruct (open_ok _ _ _ _ Hopen) as [Hcs _].
+  destruct (client_upload_canonical c f cs content script st0 u0 Hopen Hok Hfresh Hids) as [st [Hrun [Hst Hos]]].
+  destruct (upload_canonical c f cs [content] st0 u0 Hopen Hfresh Hids) as [st' [Hrun' [Hst' _]]].
   simpl concat in Hst'. rewrite app_nil_r in Hst'.
   exists st, st'. split; [exact Hrun|]. split; [exact Hrun'|].
   pose proof (stored_facts c f cs content st ltac:(lia) Hst) as Hf.
@@ -1242,14 +1281,14 @@ Proof.
 Qed.
 
 (* C18: a deleted file leaves nothing behind (untracked bucket) *)
-Theorem delete_leaves_nothing c f cs parts st0 :
-  0 < cs <= cfg_B c -> cfg_tracked c = false -> fresh st0 f -> ids_fresh st0 ->
+Theorem delete_leaves_nothing c f cs parts st0 u0 :
+  open_upload c f cs = Some u0 -> cfg_tracked c = false -> fresh st0 f -> ids_fresh st0 ->
   exists st st',
     upload_run c st0 f cs parts = Some st /\ delete c st f = (st', UOk) /\
     no_chunks st' f /\ no_file st' f /\ dopen st' f = DOpenErr ENotFound /\ OtherSame f st0 st'.
 Proof.
-  intros Hcs Htr Hfresh Hids.
-  destruct (upload_canonical c f cs parts st0 Hcs Hfresh Hids) as [st [Hrun [Hst Hos]]].
+  intros Hopen Htr Hfresh Hids.
+  destruct (upload_canonical c f cs parts st0 u0 Hopen Hfresh Hids) as [st [Hrun [Hst Hos]]].
   destruct (delete_untracked_inv c f cs _ st Htr Hst) as [st' [Hdel [Hnc [Hnf Hos']]]].
   exists st, st'. split; [exact Hrun|]. split; [exact Hdel|]. split; [exact Hnc|]. split; [exact Hnf|].
   split; [|eapply OtherSame_trans; eauto].
@@ -1387,8 +1426,8 @@ Proof.
 Qed.
 
 (* C18: a deleted file leaves nothing behind (tracked bucket: Delete, then Cleanup) *)
-Theorem delete_cleanup_leaves_nothing c f cs parts st0 :
-  0 < cs <= cfg_B c -> cfg_tracked c = true -> fresh st0 f -> ids_fresh st0 ->
+Theorem delete_cleanup_leaves_nothing c f cs parts st0 u0 :
+  open_upload c f cs = Some u0 -> cfg_tracked c = true -> fresh st0 f -> ids_fresh st0 ->
   exists st st',
     upload_run c st0 f cs parts = Some st /\ delete_cleanup c st f = Some st' /\
     no_chunks st' f /\ no_file st' f /\ no_marker st' f /\ dopen st' f = DOpenErr ENotFound /\
@@ -1396,8 +1435,8 @@ Theorem delete_cleanup_leaves_nothing c f cs parts st0 :
        filter (is_file g) (s_chunks st') = filter (is_file g) (s_chunks st) /\
        filter (fun r => f_id r =? g) (s_files st') = filter (fun r => f_id r =? g) (s_files st)).
 Proof.
-  intros Hcs Htr Hfresh Hids.
-  destruct (upload_canonical c f cs parts st0 Hcs Hfresh Hids) as [st [Hrun [Hst Hos]]].
+  intros Hopen Htr Hfresh Hids.
+  destruct (upload_canonical c f cs parts st0 u0 Hopen Hfresh Hids) as [st [Hrun [Hst Hos]]].
   destruct (delete_cleanup_inv c f cs _ st Htr Hst) as [st' [Hdel [Hnc [Hnf [Hnm Hother]]]]].
   exists st, st'. split; [exact Hrun|]. split; [exact Hdel|]. split; [exact Hnc|]. split; [exact Hnf|].
   split; [exact Hnm|]. split; [|exact Hother].
@@ -1708,7 +1747,7 @@ Qed.
 
 (* one Read *)
 Lemma dread_equiv f cs content d pos n :
-  0 < cs -> DInv f cs content d pos -> 0 <= n ->
+  0 < cs -> DInv f cs content d pos ->
   exists d',
     dread d n = (d', match snd (br_read (mkB content pos) n) with
                      | ORead b e => ROk b e
@@ -1716,11 +1755,16 @@ Lemma dread_equiv f cs content d pos n :
                      end) /\
     DInv f cs content d' (br_pos (fst (br_read (mkB content pos) n))).
 Proof.
-  intros Hcs [Hfile Hchunks Hopen Hpos Hnn [rest [Hrem Hcur]]] Hn.
+  intros Hcs [Hfile Hchunks Hopen Hpos Hnn [rest [Hrem Hcur]]].
   unfold dread, br_read. rewrite Hopen, Hfile, Hpos. cbn [f_length br_pos br_data].
   destruct (pos >=? zlen content) eqn:Eend.
   - exists d. split; [reflexivity|]. constructor; auto. exists rest. auto.
-  - assert (Hne : d_buf d ++ concat rest <> []).
+  - destruct (Z_lt_ge_dec n 0) as [Hneg|Hn].
+    { (* a negative count cannot occur in Go (len(buf)); both sides read nothing *)
+      exists d. rewrite read_loop_unfold. assert (E : (0 <? n) = false) by lia. rewrite E.
+      replace (Z.to_nat n) with 0%nat by lia. simpl firstn. split; [reflexivity|].
+      cbn [fst br_pos]. rewrite zlen_nil, Z.add_0_r. constructor; auto. exists rest. auto. }
+    assert (Hne : d_buf d ++ concat rest <> []).
     { rewrite Hrem. intro E. apply (f_equal zlen) in E. rewrite zlen_skipn, zlen_nil in E. lia. }
     destruct Hcur as [[_ [-> Hb]]|Hrs]; [rewrite Hb in Hne; simpl in Hne; congruence|].
     assert (Hcl : cursor_len d = llen rest).
@@ -1751,9 +1795,19 @@ Qed.
 
 Definition valid_whence (w : Z) : Prop := w = 0 \/ w = 1 \/ w = 2.
 
-(* one Seek *)
+(* DownloadStream.Seek rejects an unknown whence and leaves the stream alone *)
+Theorem seek_rejects_unknown_whence st d offset whence :
+  d_closed d = false -> ~ valid_whence whence ->
+  dseek_whence st d offset whence = (d, PErr EOther).
+Proof.
+  intros Ho Hw. unfold dseek_whence. rewrite Ho.
+  assert (E : ((whence <? 0) || (whence >? 2)) = true) by (unfold valid_whence in Hw; lia).
+  rewrite E. reflexivity.
+Qed.
+
+(* one Seek, any whence *)
 Lemma dseek_equiv st f cs content d pos offset whence :
-  wf_file st f cs content -> DInv f cs content d pos -> valid_whence whence ->
+  wf_file st f cs content -> DInv f cs content d pos ->
   exists d',
     dseek_whence st d offset whence
       = (d', match snd (br_seek (mkB content pos) offset whence) with
@@ -1763,17 +1817,13 @@ Lemma dseek_equiv st f cs content d pos offset whence :
              end) /\
     DInv f cs content d' (br_pos (fst (br_seek (mkB content pos) offset whence))).
 Proof.
-  intros Hwf Hinv Hw. pose proof Hinv as [Hfile Hchunks Hopen Hpos Hnn Hdyn].
+  intros Hwf Hinv. pose proof Hinv as [Hfile Hchunks Hopen Hpos Hnn Hdyn].
   unfold dseek_whence, br_seek. rewrite Hopen, Hfile, Hpos. cbn [f_length br_pos br_data].
-  assert (Ew : ((whence <? 0) || (whence >? 2)) = false) by (unfold valid_whence in Hw; lia). rewrite Ew.
+  destruct ((whence <? 0) || (whence >? 2)) eqn:Ew.
+  { (* unknown whence: an error on both sides, nothing changes *)
+    exists d. split; [reflexivity | exact Hinv]. }
   set (position := if whence =? 0 then offset else if whence =? 1 then pos + offset
-                   else if whence =? 2 then zlen content + offset else 0).
-  assert (Eabs : (if whence =? 0 then offset else if whence =? 1 then pos + offset
-                  else zlen content + offset) = position).
-  { subst position. unfold valid_whence in Hw.
-    destruct (whence =? 0) eqn:E0; [reflexivity|]. destruct (whence =? 1) eqn:E1; [reflexivity|].
-    assert (E2 : (whence =? 2) = true) by lia. rewrite E2. reflexivity. }
-  rewrite Eabs.
+                   else zlen content + offset).
   destruct (position <? 0) eqn:Eneg.
   - (* negative position: error, nothing changes *)
     unfold dseek. rewrite Eneg. exists d. split; [reflexivity|]. exact Hinv.
@@ -1787,33 +1837,26 @@ Proof.
     destruct Hrs as [H1 H2 H3 H4]. constructor; auto.
 Qed.
 
-Definition valid_op (o : dop) : Prop :=
-  match o with
-  | DRead n => 0 <= n
-  | DSeek _ w => valid_whence w
-  | DSkip _ => True
-  end.
-
 Lemma dstep_equiv st f cs content d pos op :
-  wf_file st f cs content -> DInv f cs content d pos -> valid_op op ->
+  wf_file st f cs content -> DInv f cs content d pos ->
   exists d',
     dstep st d op = (d', snd (br_step (mkB content pos) op)) /\
     DInv f cs content d' (br_pos (fst (br_step (mkB content pos) op))) /\
     br_data (fst (br_step (mkB content pos) op)) = content.
 Proof.
-  intros Hwf Hinv Hv. pose proof Hwf as [Hcs _]. destruct op as [n|o w|n]; cbn [dstep br_step].
-  - destruct (dread_equiv f cs content d pos n Hcs Hinv Hv) as [d' [Hr Hinv']].
+  intros Hwf Hinv. pose proof Hwf as [Hcs _]. destruct op as [n|o w|n]; cbn [dstep br_step].
+  - destruct (dread_equiv f cs content d pos n Hcs Hinv) as [d' [Hr Hinv']].
     exists d'. rewrite Hr. split; [|split; [exact Hinv'|]].
     + unfold br_read. cbn [br_pos br_data]. destruct (pos >=? zlen content); reflexivity.
     + unfold br_read. cbn [br_pos br_data]. destruct (pos >=? zlen content); reflexivity.
-  - destruct (dseek_equiv st f cs content d pos o w Hwf Hinv Hv) as [d' [Hr Hinv']].
+  - destruct (dseek_equiv st f cs content d pos o w Hwf Hinv) as [d' [Hr Hinv']].
     exists d'. rewrite Hr. split; [|split; [exact Hinv'|]].
     + unfold br_seek. cbn. destruct ((w <? 0) || (w >? 2)); [reflexivity|].
       match goal with |- context [if ?c <? 0 then _ else _] => destruct (c <? 0) end; reflexivity.
     + unfold br_seek. cbn. destruct ((w <? 0) || (w >? 2)); [reflexivity|].
       match goal with |- context [if ?c <? 0 then _ else _] => destruct (c <? 0) end; reflexivity.
   - unfold dskip.
-    destruct (dseek_equiv st f cs content d pos n 1 Hwf Hinv ltac:(right; left; reflexivity)) as [d' [Hr Hinv']].
+    destruct (dseek_equiv st f cs content d pos n 1 Hwf Hinv) as [d' [Hr Hinv']].
     exists d'. rewrite Hr. split; [|split; [exact Hinv'|]].
     + unfold br_seek. cbn.
       match goal with |- context [if ?c <? 0 then _ else _] => destruct (c <? 0) end; reflexivity.
@@ -1824,52 +1867,68 @@ Qed.
 Lemma run_download_equiv st f cs content :
   wf_file st f cs content ->
   forall script d pos,
-  DInv f cs content d pos -> Forall valid_op script ->
+  DInv f cs content d pos ->
   fst (run_download st d script) = fst (run_reader (mkB content pos) script) /\
   d_pos (snd (run_download st d script)) = br_pos (snd (run_reader (mkB content pos) script)).
 Proof.
-  intros Hwf. induction script as [|op t IH]; intros d pos Hinv Hv.
+  intros Hwf. induction script as [|op t IH]; intros d pos Hinv.
   - simpl. split; [reflexivity|]. destruct Hinv; assumption.
-  - inversion Hv as [|? ? Hop Ht]; subst.
-    destruct (dstep_equiv st f cs content d pos op Hwf Hinv Hop) as [d' [Hstep [Hinv' Hdata]]].
+  - destruct (dstep_equiv st f cs content d pos op Hwf Hinv) as [d' [Hstep [Hinv' Hdata]]].
     cbn [run_download run_reader]. rewrite Hstep.
     destruct (br_step (mkB content pos) op) as [r1 o] eqn:Ebr. cbn [fst snd] in *.
     assert (Hr1 : r1 = mkB content (br_pos r1)) by (destruct r1; cbn in *; congruence).
-    destruct (IH d' (br_pos r1) Hinv' Ht) as [H1 H2]. rewrite <- Hr1 in H1, H2.
+    destruct (IH d' (br_pos r1) Hinv') as [H1 H2]. rewrite <- Hr1 in H1, H2.
     destruct (run_download st d' t) as [os d2]. destruct (run_reader r1 t) as [os' r2].
     cbn [fst snd] in *. split; [congruence | exact H2].
 Qed.
 
-(* C18, download part: any script of Read / Seek / Skip on the download stream
-   of a stored file returns the same bytes, positions, errors and EOFs as the
-   same script on an in-memory reader of the content *)
-Theorem download_equiv_partial st f cs content script :
-  wf_file st f cs content -> Forall valid_op script ->
+(* C18, download part: ANY script of Read n / Seek off whence / Skip n (every
+   whence, every count) on the download stream of a stored file returns the
+   same bytes, positions, errors and EOFs as the same script on an in-memory
+   reader of the content, and ends at the same position *)
+Theorem download_equiv st f cs content script :
+  wf_file st f cs content ->
   exists d, dopen st f = DOpened d /\
             fst (run_download st d script) = fst (run_reader (bytes_reader content) script) /\
             d_pos (snd (run_download st d script)) = br_pos (snd (run_reader (bytes_reader content) script)).
 Proof.
-  intros Hwf Hv. destruct (dopen_spec st f cs content Hwf) as [d [Hopen Hinv]].
-  exists d. split; [exact Hopen|]. apply (run_download_equiv st f cs content Hwf script d 0 Hinv Hv).
+  intros Hwf. destruct (dopen_spec st f cs content Hwf) as [d [Hopen Hinv]].
+  exists d. split; [exact Hopen|]. apply (run_download_equiv st f cs content Hwf script d 0 Hinv).
 Qed.
 
 (* C18, end to end: what was uploaded (any partition, any suspensions) is what
    any download script sees *)
-Theorem roundtrip c f cs content uscript st0 dscript :
-  0 < cs <= cfg_B c -> script_ok c uscript -> fresh st0 f -> ids_fresh st0 -> Forall valid_op dscript ->
+Theorem roundtrip c f cs content uscript st0 u0 dscript :
+  open_upload c f cs = Some u0 -> script_ok c uscript -> fresh st0 f -> ids_fresh st0 ->
   exists st d,
     client_upload c st0 f cs content uscript = Some st /\ dopen st f = DOpened d /\
     fst (run_download st d dscript) = fst (run_reader (bytes_reader content) dscript).
 Proof.
-  intros Hcs Hok Hfresh Hids Hv.
-  destruct (client_upload_canonical c f cs content uscript st0 Hcs Hok Hfresh Hids) as [st [Hrun [Hst _]]].
-  destruct (download_equiv_partial st f cs content dscript (stored_wf_file c f cs content st ltac:(lia) Hst) Hv)
-    as [d [Hopen [Hobs _]]].
+  intros Hopen Hok Hfresh Hids. destruct (open_ok _ _ _ _ Hopen) as [Hcs _].
+  destruct (client_upload_canonical c f cs content uscript st0 u0 Hopen Hok Hfresh Hids) as [st [Hrun [Hst _]]].
+  destruct (download_equiv st f cs content dscript (stored_wf_file c f cs content st ltac:(lia) Hst))
+    as [d [Hopen' [Hobs _]]].
   exists st, d. auto.
 Qed.
 
+(* without any guard: an upload either is refused when the stream is opened
+   (bad chunk size, nothing stored) or stores exactly the content *)
+Theorem upload_total c f cs parts st0 :
+  fresh st0 f -> ids_fresh st0 ->
+  (open_upload c f cs = None /\ (cs <= 0 \/ cs > cfg_B c) /\ upload_run c st0 f cs parts = None) \/
+  (exists st, upload_run c st0 f cs parts = Some st /\
+              stored_as_stated st f cs (concat parts) /\ OtherSame f st0 st).
+Proof.
+  intros Hfresh Hids. destruct (open_upload c f cs) as [u0|] eqn:Hopen.
+  - right. exact (upload_concat c f cs parts st0 u0 Hopen Hfresh Hids).
+  - left. split; [reflexivity|]. split.
+    + unfold open_upload in Hopen. destruct ((cs <=? 0) || (cs >? cfg_B c)) eqn:E; [lia | discriminate].
+    + unfold upload_run. rewrite Hopen. reflexivity.
+Qed.
+
 (* ------------------------------------------------------------------ *)
-(* The unrestricted statements are false of the faithful model          *)
+(* What open_upload protects from: the same runs on a stream that was NOT
+   obtained through open_upload (the state of lungo before fix ae31d98)      *)
 
 Lemma fresh_empty f : fresh empty_store f.
 Proof. repeat split; intros ? []. Qed.
@@ -1877,41 +1936,48 @@ Proof. repeat split; intros ? []. Qed.
 Lemma ids_fresh_empty : ids_fresh empty_store.
 Proof. intros ? []. Qed.
 
+(* Write...; Close (; ClaimUpload) on a given stream *)
+Definition upload_from (c : cfg) (st0 : store) (u : ustream) (parts : list (list Z)) : option store :=
+  match writes c st0 u parts with
+  | Some (st, u') => finish c st u'
+  | None => None
+  end.
+
 (* chunk size 0: upload divides by the chunk size — Close (or the Write that
-   fills the buffer) panics; nothing is stored under a file record *)
-Theorem upload_concat_refuted_zero_chunk_size :
+   fills the buffer) panics *)
+Theorem unguarded_zero_chunk_size_panics :
   exists c data,
-    fresh empty_store 1 /\ ids_fresh empty_store /\
-    upload_run c empty_store 1 0 [data] = None /\
+    open_upload c 1 0 = None /\
+    upload_from c empty_store (new_upload 1 0) [data] = None /\
     (let '(st, u, _) := write c empty_store (new_upload 1 0) data in snd (close c st u)) = UPanic.
-Proof.
-  exists (mkCfg 16 false), [1; 2; 3].
-  split; [apply fresh_empty|]. split; [apply ids_fresh_empty|]. vm_compute. split; reflexivity.
-Qed.
+Proof. exists (mkCfg 16 false), [1; 2; 3]. vm_compute. repeat split; reflexivity. Qed.
 
 (* negative chunk size: make([]interface{}, 0, negative) / slice bounds *)
-Theorem upload_concat_refuted_negative_chunk_size :
+Theorem unguarded_negative_chunk_size_panics :
   exists c data,
-    upload_run c empty_store 1 (-1) [data] = None /\
+    open_upload c 1 (-1) = None /\
+    upload_from c empty_store (new_upload 1 (-1)) [data] = None /\
     (let '(st, u, _) := write c empty_store (new_upload 1 (-1)) data in snd (close c st u)) = UPanic.
-Proof. exists (mkCfg 16 true), [1; 2; 3]. vm_compute. split; reflexivity. Qed.
+Proof. exists (mkCfg 16 true), [1; 2; 3]. vm_compute. repeat split; reflexivity. Qed.
 
-(* ... and with an empty content an untracked Close stores a file record
+(* ... and with an empty content an untracked Close would store a file record
    that can never be opened for download *)
-Theorem upload_concat_refuted_nonpositive_empty :
+Theorem unguarded_nonpositive_empty_unreadable :
   exists c st,
-    upload_run c empty_store 1 (-1) [] = Some st /\ dopen st 1 = DOpenErr EOther.
+    open_upload c 1 (-1) = None /\
+    upload_from c empty_store (new_upload 1 (-1)) [] = Some st /\ dopen st 1 = DOpenErr EOther.
 Proof.
-  exists (mkCfg 16 false). eexists. split; [vm_compute; reflexivity|]. vm_compute. reflexivity.
+  exists (mkCfg 16 false). eexists. split; [reflexivity|].
+  split; [vm_compute; reflexivity|]. vm_compute. reflexivity.
 Qed.
 
 (* chunk size > buffer: once the buffer is full upload(false) frees nothing
    and Write spins forever (the model's fuel runs out: NHang) *)
-Theorem upload_concat_refuted_chunk_size_over_buffer :
+Theorem unguarded_chunk_size_over_buffer_hangs :
   exists c cs data,
-    cs > cfg_B c /\
+    cs > cfg_B c /\ open_upload c 1 cs = None /\
     snd (write c empty_store (new_upload 1 cs) data) = NHang /\
-    upload_run c empty_store 1 cs [data] = None.
+    upload_from c empty_store (new_upload 1 cs) [data] = None.
 Proof. exists (mkCfg 4 false), 5, [1; 2; 3; 4; 5]. vm_compute. repeat split; reflexivity. Qed.
 
 (* the hang is not an artefact of the fuel: with a full buffer and cs > B an
@@ -1936,33 +2002,18 @@ Proof.
   destruct st, u; reflexivity.
 Qed.
 
-(* an unknown whence: lungo seeks to position 0 and reports success, an
-   in-memory reader reports an error and stays *)
-Theorem download_equiv_refuted_whence :
-  exists st f cs content script d,
-    wf_file st f cs content /\ dopen st f = DOpened d /\
-    fst (run_download st d script) <> fst (run_reader (bytes_reader content) script).
-Proof.
-  destruct (upload_canonical (mkCfg 8 false) 1 2 [[10; 11; 12]] empty_store ltac:(cbn; lia)
-              (fresh_empty 1) ids_fresh_empty) as [st [Hrun [Hst _]]].
-  pose proof (stored_wf_file (mkCfg 8 false) 1 2 _ st ltac:(lia) Hst) as Hwf. simpl concat in Hwf.
-  vm_compute in Hrun. inversion Hrun; subst st. clear Hrun.
-  eexists _, 1, 2, [10; 11; 12], [DRead 2; DSeek 1 3; DRead 1], _.
-  split; [exact Hwf|]. split; [vm_compute; reflexivity|]. vm_compute. discriminate.
-Qed.
-
 (* ------------------------------------------------------------------ *)
 (* Non-vacuity: the hypotheses are satisfiable and the runs compute      *)
 
 Example upload_example :
   let c := mkCfg 4 true in
-  fresh empty_store 7 /\ ids_fresh empty_store /\ 0 < 3 <= cfg_B c /\
+  fresh empty_store 7 /\ ids_fresh empty_store /\ open_upload c 7 3 = Some (new_upload 7 3) /\
   exists st,
     upload_run c empty_store 7 3 [[1; 2]; [3; 4; 5; 6; 7]; []; [8]] = Some st /\
     find_chunks st 7 = [mkChunk 7 0 [1; 2; 3]; mkChunk 7 1 [4; 5; 6]; mkChunk 7 2 [7; 8]] /\
     find_file st 7 = Some (mkFile 7 8 3).
 Proof.
-  cbn zeta. split; [apply fresh_empty|]. split; [apply ids_fresh_empty|]. split; [cbn; lia|].
+  cbn zeta. split; [apply fresh_empty|]. split; [apply ids_fresh_empty|]. split; [reflexivity|].
   eexists. split; [vm_compute; reflexivity|]. split; vm_compute; reflexivity.
 Qed.
 
@@ -1983,15 +2034,15 @@ Qed.
 Example download_example :
   let st := mkStore [mkChunk 7 0 [1; 2; 3]; mkChunk 7 1 [4; 5; 6]; mkChunk 7 2 [7; 8]] [mkFile 7 8 3] [] 0 in
   let script := [DRead 2; DRead 0; DSkip 2; DRead 9; DRead 1; DSeek (-3) 2; DRead 1; DSeek (-9) 2;
-                 DSeek 20 0; DRead 0; DSeek 3 0; DRead 4] in
-  wf_file st 7 3 [1; 2; 3; 4; 5; 6; 7; 8] /\ Forall valid_op script /\
+                 DSeek 20 0; DRead 0; DSeek 3 0; DSeek 1 3; DRead 4] in
+  wf_file st 7 3 [1; 2; 3; 4; 5; 6; 7; 8] /\
   exists d, dopen st 7 = DOpened d /\
     fst (run_download st d script) =
       [ORead [1; 2] None; ORead [] None; OPos 4; ORead [5; 6; 7; 8] None; ORead [] (Some EEOF);
-       OPos 5; ORead [6] None; OErr ENeg; OPos 20; ORead [] (Some EEOF); OPos 3; ORead [4; 5; 6; 7] None].
+       OPos 5; ORead [6] None; OErr ENeg; OPos 20; ORead [] (Some EEOF); OPos 3; OErr EOther;
+       ORead [4; 5; 6; 7] None].
 Proof.
-  cbn zeta. split; [split; [lia | split; reflexivity]|]. split.
-  { repeat constructor; cbn; try lia; unfold valid_whence; lia. }
+  cbn zeta. split; [split; [lia | split; reflexivity]|].
   eexists. split; [vm_compute; reflexivity|]. vm_compute. reflexivity.
 Qed.
 
